@@ -125,6 +125,10 @@ def run_graph_case(prop, case, note, skip, recipe_plan, oracle,
                           'the oracle could not examine the returned model: '
                           + tb[-800:])]
       res['fails'].extend(fails)
+      if hasattr(ctx, 'margin') and not fails:
+        # how much of the fixed-fraction allowance was used (tenths)
+        res['counts']['allowance_used<=%.1f' % (
+            min(1.0, int(ctx.margin * 10 + 0.999) / 10.0))] += 1
       if 'sample' not in res:
         res['sample'] = {'ir': ir, 'sub': subkey,
                          'outcome': 'returned', 'n_failures': len(fails)}
